@@ -106,6 +106,18 @@ Round 8 additions:
   * C12.pure: writes to a module-level table (a process-wide cache) are not WBS state; a write whose receiver's origin was lost
     is judged by the receiver's class (network classes: fine; task / list classes: REFUTED; unknown: UNDECIDED).
 
+Round 9 additions:
+  * conditions that are boolean conditional expressions (a folded predicate helper: `False if task.children else task.id not in
+    self.<tasks>`) are read as and / or everywhere conditions are gathered (U.bool_ifexp, _nconds), negated conjunctions by
+    De Morgan; the leaf / `already inserted` tests may live in such a predicate evaluated by the callers or by the insert;
+  * the link's length field is found by role (third plain copy next to start / end: `duration`), call arguments left out take
+    the callee's default (`connect(a, b)` with `units=0`), generator leaf helpers (yield / yield from) are evaluated like list
+    builders;
+  * C12.leaf-arcs: with several arc-builder calls in the insert, one reached under `task has children` -> REFUTED (a summary
+    becomes a work); C12.passes: the dependency loop as a whole under a test of the inserted task (`if started: return` with
+    started = spent > 0) -> REFUTED, `if not predecessors: return` accepted; a constant empty result of calc under a test of node
+    times (`if length == 0: return []`) -> REFUTED, under `no arcs at all` accepted.
+
 Not decided: exactness of the longest-path result as a number (magnitude of the tolerance - a constant above 1e-3 is
 reported UNDECIDED -, float rounding inside the folds), "never empty when the WBS has a leaf" (follows from the clauses,
 not checked on its own), acyclicity handling (the property quantifies over acyclic WBSs), the end_date != None mode
@@ -703,6 +715,11 @@ def _network_model(ctx, R: Roles, model, o):
         if isinstance(tgt.value, ast.Name) and tgt.value.id == linit.self_name and isinstance(val, ast.Name) \
                 and val.id in linit.params:
             fld[tgt.attr] = val.id
+    # the length field may carry another name (`duration`): it is the third plain copy next to start / end
+    if 'units' not in fld and {'start', 'end'} <= set(fld) and len(fld) == 3:
+        uf_ = next(k for k in fld if k not in ('start', 'end'))
+        model['units_field'] = uf_
+        fld['units'] = fld[uf_]
     model['link_init'] = linit
     model['link_fields'] = fld
     con = R.connect
@@ -895,7 +912,23 @@ def _leaf_arcs(ctx, R: Roles, model, o):
     # (3) in the insert: the arc builder call, its work term, its leaf guard
     calls = R.calls_to(ins, add)
     if len(calls) != 1:
-        o.undecided(ins, ins.node, ins.name, f"{len(calls)} calls of the arc builder in the insert (expected one)")
+        # several places that build arcs: is one of them reached for a task WITH children?
+        named = False
+        for c_ in calls:
+            ia_ = bind_args(c_, add).get(id_param)
+            xk = Expander(prog, ins, ctx.typer, inline=False).expand(ia_, cfg.node_containing(c_)) if ia_ is not None else None
+            owner_ = xk.value if isinstance(xk, ast.Attribute) else xk
+            if not isinstance(owner_, ast.Name):
+                continue
+            for t_, p_ in _nconds(prog, ins, c_, ctx.typer, expand=False):
+                lt_ = leaf_test(t_, p_)
+                if lt_ and isinstance(lt_[0], ast.Name) and lt_[0].id == owner_.id and not lt_[1]:
+                    named = True
+                    o.refute(ins, c_, c_, f"`{src(c_)[:70]}` builds an arc for `{owner_.id}` under `{'' if p_ else 'not '}{src(t_)[:50]}`: a task "
+                                          f"WITH children becomes a work of the network (and can be reported as critical); only leaf "
+                                          f"tasks are works, a summary predecessor is replaced by its leaves")
+        if not named:
+            o.undecided(ins, ins.node, ins.name, f"{len(calls)} calls of the arc builder in the insert (expected one)")
         return
     call = calls[0]
     model['add_call'] = call
@@ -1078,7 +1111,9 @@ def _leaf_arcs(ctx, R: Roles, model, o):
         for t, p in _nconds(prog, init, c, ctx.typer, expand=False):
             tn_ = icfg.node_containing(t)
             try:
-                tx_ = exi.expand(t, tn_, stop={lv_}) if tn_ is not None else t      # `flag = end_date is not None` hoisted
+                # `flag = end_date is not None` hoisted; fields of the calculator (self.<tasks>) keep their name
+                locals_ = {x.id for x in ast.walk(t) if isinstance(x, ast.Name)} - {lv_, init.self_name} - set(init.params)
+                tx_ = exi.expand(t, tn_, stop={lv_, init.self_name}) if tn_ is not None and locals_ else t
             except Exception:       # noqa: BLE001
                 tx_ = t
             cs += facts.split_conj(_reduce_when_none(tx_, end_p, end_attr_), p)
@@ -1397,10 +1432,22 @@ def _leaf_helper_checker(ctx, R: Roles, cache: dict):
         total: U.Paths = {}
         try:
             rets = [n for n in walk_no_nested(h.node) if isinstance(n, ast.Return) and n.value is not None]
-            if not rets:
-                raise Unknown(h.node, "no return")
-            for r in rets:
-                total = U._union(total, ev.contribution(cfg.node_of(r), r.value, None))
+            yields = [n for n in walk_no_nested(h.node) if isinstance(n, (ast.Yield, ast.YieldFrom))]
+            if yields and not rets:
+                # a generator: what it yields, one by one (`yield t`) or from another iterable (`yield from f(ch)`)
+                for y in yields:
+                    yn = cfg.node_containing(y)
+                    if yn is None or y.value is None:
+                        raise Unknown(y, "bare yield")
+                    if isinstance(y, ast.Yield):
+                        total = U._union(total, ev.contribution(yn, ast.List(elts=[y.value], ctx=ast.Load()), None))
+                    else:
+                        total = U._union(total, ev.contribution(yn, y.value, None))
+            else:
+                if not rets or yields:
+                    raise Unknown(h.node, "no return")
+                for r in rets:
+                    total = U._union(total, ev.contribution(cfg.node_of(r), r.value, None))
         except Unknown as e:
             cache[h.qual] = (False, e.msg)
             return False
@@ -1582,7 +1629,15 @@ def _inherit_registered(ctx, R: Roles, model, o_inh, o_reg):
         rn = cfg.node_of(r)
         if rn is None or not cfg.is_reachable(rn) or cfg.can_reach(an, rn):
             continue
-        cs = cfg.conditions(rn)
+        cs = []
+        for t, p in cfg.conditions(rn):
+            t = U.bool_ifexp(t)         # `if not self.__wanted(task): return` folded to `not (False if task.children else ..)`
+            while isinstance(t, ast.UnaryOp) and isinstance(t.op, ast.Not):
+                t, p = t.operand, not p
+            if not p and isinstance(t, ast.BoolOp) and isinstance(t.op, ast.And):
+                # not (a and b) = not a or not b
+                t, p = ast.copy_location(ast.BoolOp(op=ast.Or(), values=[ast.UnaryOp(op=ast.Not(), operand=v) for v in t.values]), t), True
+            cs.append((t, p))
         atoms = []
         for t, p in cs:
             atoms += facts.split_conj(t, p)
@@ -2019,6 +2074,39 @@ def _passes(ctx, R: Roles, model, o, o_eq):
         else:
             o.undecided(add, add.node, 'dependency arcs', "where the arc builder links a predecessor's arc to the task's arc is not "
                                                           "understood (no loop over the predecessor parameter with a connect call)")
+    if loop is not None and dep_calls and dep_host is real_add and model.get('add_call') is not None:
+        # the loop as a whole must run for every task: `if started: return` in front of it drops all dependency arcs of some
+        lh_ = acfg.node_of(loop)
+        ab_ = bind_args(model['add_call'], real_add)
+        ins_ = R.insert
+        exi_ = Expander(prog, ins_, ctx.typer)
+        icfg_ = cfg_of(ins_)
+        from sa.flow import subst as _subst
+        for t_, p_ in (acfg.conditions(lh_) if lh_ is not None else []):
+            for a_, ap_ in facts.split_conj(exa.expand(t_, acfg.node_containing(t_)) if acfg.node_containing(t_) is not None else t_, p_):
+                et_ = empty_test(a_, ap_)
+                if et_ and not et_[1] and isinstance(et_[0], ast.Name) and et_[0].id == site.get('pred_param'):
+                    continue            # `if predecessors:` - nothing to link otherwise
+                b_, bp_ = a_, ap_
+                while isinstance(b_, ast.UnaryOp) and isinstance(b_.op, ast.Not):
+                    b_, bp_ = b_.operand, not bp_
+                if isinstance(b_, ast.Name) and b_.id == site.get('pred_param') and bp_:
+                    continue
+                names_ = {x.id for x in ast.walk(a_) if isinstance(x, ast.Name)}
+                if names_ and names_ <= set(ab_) - {real_add.self_name}:
+                    # a test of the builder's own parameters: read it with the arguments of the insert
+                    at_ = icfg_.node_containing(model['add_call'])
+                    ax_ = _subst(a_, {k: exi_.expand(v, at_) for k, v in ab_.items() if k in names_})
+                    tp_ = model.get('task_param')
+                    rd_ = {x.attr for x in ast.walk(ax_) if isinstance(x, ast.Attribute) and isinstance(x.value, ast.Name) and x.value.id == tp_}
+                    free_ = {x.id for x in ast.walk(ax_) if isinstance(x, ast.Name)} - {tp_, 'len', 'abs', 'bool', 'max', 'min'}
+                    if rd_ and not free_ and not rd_ & {'children', 'all_children'}:
+                        o.refute(add, loop, a_, f"the dependency arcs of a task are added only when `{'' if ap_ else 'not '}{src(a_)[:50]}`, "
+                                                f"i.e. `{'' if ap_ else 'not '}{src(ax_)[:70]}` for the inserted task: the other tasks get no "
+                                                f"link from their (own or inherited) predecessors and float to time 0; every predecessor "
+                                                f"binds the task whatever its {', '.join(sorted(rd_))}")
+                        continue
+                o.undecided(add, loop, a_, f"the dependency loop runs only under `{'' if ap_ else 'not '}{src(a_)[:70]}`")
     for c in dep_calls:
         b = bind_args(c, con)
         s = exa.expand(b.get(p_start), acfg.node_containing(c)) if b.get(p_start) is not None else None
@@ -2092,8 +2180,9 @@ def _passes(ctx, R: Roles, model, o, o_eq):
         o.undecided(calc, calc.node, calc.name, f"the passes do not store one node field each (found {ES}, {LF})")
         return
     model['ES'], model['LF'] = ES, LF
-    _check_pass(ctx, R, o, fwd, 'forward', field=ES, op='max', links=IN, far='start', sign=+1, other_links=OUT, ES=ES)
-    _check_pass(ctx, R, o, bwd, 'backward', field=LF, op='min', links=OUT, far='end', sign=-1, other_links=IN, ES=ES)
+    UF = model.get('units_field', 'units')
+    _check_pass(ctx, R, o, fwd, 'forward', field=ES, op='max', links=IN, far='start', sign=+1, other_links=OUT, ES=ES, UF=UF)
+    _check_pass(ctx, R, o, bwd, 'backward', field=LF, op='min', links=OUT, far='end', sign=-1, other_links=IN, ES=ES, UF=UF)
 
     # ---- orchestration in calc
     exk = Expander(prog, calc, ctx.typer, inline=False)
@@ -2257,7 +2346,7 @@ def _passes(ctx, R: Roles, model, o, o_eq):
     if not all(_before(ccfg2, b, sel['node']) for b in bn):
         o.refute(calc, sel['stmt'], 'order', "the selection reads latest times before the backward pass has run")
     lv = sel['link_var']
-    want = sorted([(+1, f"{lv}.end.{LF}"), (-1, f"{lv}.start.{ES}"), (-1, f"{lv}.units")])
+    want = sorted([(+1, f"{lv}.end.{LF}"), (-1, f"{lv}.start.{ES}"), (-1, f"{lv}.{model.get('units_field', 'units')}")])
     tests = []
     consts = {}
     for st_ in R.mod.tree.body:
@@ -2383,7 +2472,7 @@ def _pass_field(p: Func) -> Optional[str]:
     return next(iter(attrs)) if len(attrs) == 1 else None
 
 
-def _check_pass(ctx, R, o, p: Func, what: str, field, op, links, far, sign, other_links, ES):
+def _check_pass(ctx, R, o, p: Func, what: str, field, op, links, far, sign, other_links, ES, UF='units'):
     """fold shape of one pass: node.<field> = op over node.<links> of link.<far>.<field> (+/-) link.units"""
     prog = ctx.prog
     cfg = cfg_of(p)
@@ -2469,7 +2558,7 @@ def _check_pass(ctx, R, o, p: Func, what: str, field, op, links, far, sign, othe
                 return n
         term = _RecRead().visit(_copy.deepcopy(term))
     l = lin(term)
-    want = sorted([(+1, f"{lv}.{far}.{field}"), (sign, f"{lv}.units")])
+    want = sorted([(+1, f"{lv}.{far}.{field}"), (sign, f"{lv}.{UF}")])
     if l != want:
         bad = True
         if l is not None and all(_link_atom(a, lv) for _, a in l):
@@ -2595,6 +2684,31 @@ def _selection(ctx, R: Roles, model, o) -> Optional[dict]:
                 pass
         if not dead:
             rets.append(r)
+    # `if <cond>: return _ImmutableTaskList([])` next to the real selection: an empty answer for some networks
+    if len(rets) > 1:
+        keep = []
+        exr = Expander(prog, calc, ctx.typer, inline=False)
+        for r in rets:
+            v = exr.expand(r.value, cfg.node_of(r))
+            if match("_ImmutableTaskList([])", v) or match("[]", v) or match("_ImmutableTaskList(list())", v) or match("_ImmutableTaskList(())", v):
+                conds_ = []
+                for t, p in cfg.conditions(cfg.node_of(r)):
+                    tn = cfg.node_containing(t)
+                    conds_ += facts.split_conj(exr.expand(t, tn) if tn is not None else t, p)
+                tables = {model.get('links_attr'), model.get('tasks_attr'), model.get('nodes_attr')}
+                harmless = conds_ and all((lambda et: et and et[1] and isinstance(et[0], ast.Attribute) and et[0].attr in tables)(
+                    empty_test(t, p)) for t, p in conds_)
+                reads_times = [t for t, p in conds_ if any(isinstance(x, ast.Attribute) and x.attr in (
+                    'start_units', 'end_units', model.get('ES'), model.get('LF'), model.get('units_field', 'units')) for x in ast.walk(t))]
+                if harmless:
+                    continue                # no arcs at all: the selection would be empty anyway
+                if reads_times:
+                    o.refute(calc, r, r, f"calc returns an empty list when `{src(reads_times[0])[:60]}`: the times of the network say "
+                                         f"nothing about whether there are leaves - a WBS whose leaves all have zero remaining work "
+                                         f"(project length 0) still has a critical path, the result is never empty when the WBS has a leaf")
+                    continue
+            keep.append(r)
+        rets = keep
     if len(rets) != 1:
         o.undecided(calc, calc.node, calc.name, f"{len(rets)} return statements can be reached with end_date None (expected one)")
         return None
@@ -2710,6 +2824,10 @@ def _selection(ctx, R: Roles, model, o) -> Optional[dict]:
             nt = none_test(t, p)
             if nt and end_attr and match(f"self.{end_attr}", nt[0]) and nt[1]:
                 continue
+            et_ = empty_test(t, p)
+            if et_ and not et_[1] and isinstance(et_[0], ast.Attribute) and et_[0].attr in (
+                    model.get('links_attr'), model.get('tasks_attr'), model.get('nodes_attr')):
+                continue            # `if not self.<links>: return <empty>` in front: nothing to select from otherwise
             o.undecided(calc, n, t, "selection loop runs under a condition")
             return None
         conds += facts.split_conj(ex.expand(t, tn), p)
